@@ -109,7 +109,7 @@ def ev(expr, env, nr):
 # ---------------------------------------------------------------------------------------------
 # join expansion
 
-def join_pairs(A, B, join):
+def join_pairs(A, B, join, b_names=None):
     """Yields (nr, a_rec, [(bnr, b_rec)...]) lazily; raises RefError as the engine must."""
     if join is None:
         for nr, a in enumerate(A, 1):
@@ -121,7 +121,7 @@ def join_pairs(A, B, join):
         for p in join['pairs']:
             if 'f' in p['r'] and p['r']['f']['idx'] >= len(b):
                 raise RefError('runtime', None, 'no key field in B record %d' % bnr)
-    width = max([len(b) for b in B] + [0])
+    width = max([len(b) for b in B] + [len(b_names) if b_names is not None else 0])
     for nr, a in enumerate(A, 1):
         akey = []
         for p in join['pairs']:
@@ -241,6 +241,8 @@ class AggResult(object):
 
     def matches(self, got):
         fn = self.fn
+        if fn == 'POST':
+            return same_value(got, self.value)
         if fn == 'ANY_VALUE':
             return any(got is m or (type(got) is type(m) and got == m) for m in self.members)
         if fn in ('COUNT',):
@@ -267,7 +269,24 @@ class AggResult(object):
         return {'fn': self.fn, 'value': v, 'exact_int': self.exact_int}
 
 
-def aggregate(fn, values, post=None):
+def is_int_like(v):
+    if isinstance(v, bool):
+        return False
+    if isinstance(v, int):
+        return True
+    if isinstance(v, str):
+        try:
+            int(v)
+            return True
+        except ValueError:
+            return False
+    return False
+
+
+def aggregate(fn, values, post=None, column_all_int=True):
+    """column_all_int: every value this aggregate column sees (all groups) is an integer;
+    only then is the integer *type* of MIN/MAX/SUM/MEDIAN part of the expectation (the engine
+    decides int-vs-float parsing per column, not per group; the value is what the property fixes)."""
     if fn == 'COUNT':
         return AggResult(fn, len(values))
     if fn == 'ARRAY_AGG':
@@ -280,7 +299,7 @@ def aggregate(fn, values, post=None):
     if fn in ('MIN', 'MAX') and values and not isinstance(values[0], str):
         pass
     nums = [to_number(v) for v in values] if (values and isinstance(values[0], str)) else list(values)
-    all_int = all(isinstance(x, int) and not isinstance(x, bool) for x in nums)
+    all_int = column_all_int and all(isinstance(x, int) and not isinstance(x, bool) for x in nums)
     ex = [exact(x) for x in nums]
     n = len(ex)
     if fn == 'MIN':
@@ -335,7 +354,7 @@ def ref_select(case, max_pull=None):
     stop = False
     n_pairs = n_pass = 0
     match_counts = []
-    for nr, a, partners in join_pairs(A, B if join else None, join):
+    for nr, a, partners in join_pairs(A, B if join else None, join, b_names):
         pulled = nr
         match_counts.append(len([1 for bnr, _b in partners if bnr is not None]))
         for bnr, b in partners:
@@ -407,15 +426,13 @@ def ref_select(case, max_pull=None):
         for key in sorted(groups.keys()) if q.get('group') is not None else list(groups.keys()):
             slots = groups[key]
             rec = []
-            for it, vals in zip(items, slots):
+            for idx, (it, vals) in enumerate(zip(items, slots)):
                 if it['k'] == 'agg':
                     post = None
                     if it.get('post') is not None:
                         post = eval(it['post']['py'], base_env())
-                    try:
-                        rec.append(aggregate(it['fn'], vals, post))
-                    except RefError:
-                        raise
+                    col_int = all(is_int_like(v) for g in groups.values() for v in g[idx])
+                    rec.append(aggregate(it['fn'], vals, post, col_int))
                 else:
                     first = vals[0]
                     for v in vals[1:]:
@@ -478,9 +495,12 @@ def ref_update(case):
         jp = dict(join)
         # UPDATE needs the raw match list: no null partner here, handled below
         jp['kind'] = 'JOIN'
-    width = max([len(b) for b in (B or [])] + [0])
-    for nr, a, partners in join_pairs(A, B if join else None, jp):
+    width = max([len(b) for b in (B or [])] + [len(b_names) if b_names is not None else 0])
+    match_counts = []
+    n_updated = 0
+    for nr, a, partners in join_pairs(A, B if join else None, jp, b_names):
         up = list(a)
+        match_counts.append(len([1 for bnr, _b in partners if bnr is not None]))
         if join is not None:
             if len(partners) > 1:
                 raise RefError('runtime', nr, 'more than one match in UPDATE')
@@ -494,6 +514,7 @@ def ref_update(case):
         env = make_env(a, nr, a_names, b, bnr, b_names, has_join=join is not None, extra={'NU': nu})
         if q.get('where') is None or ev(q['where'], env, nr):
             nu += 1
+            n_updated += 1
             env['NU'] = nu
             for asg in q['assign']:
                 v = ev(asg['e'], env, nr)
@@ -501,7 +522,7 @@ def ref_update(case):
                     raise RefError('runtime', nr, 'no field a%d' % (asg['idx'] + 1))
                 up[asg['idx']] = v
         out.append(up)
-    return {'out': out, 'header': header}
+    return {'out': out, 'header': header, 'match_counts': match_counts, 'n_updated': n_updated}
 
 
 def ref_run(case):
